@@ -6,7 +6,9 @@
 //
 //   valsweep instants <t0> <t1> <stride>     every public operation on instants t0, t0+stride, .. < t1 and boundaries
 //   valsweep components                      boundary/sampled component tuples, error values, strings
+//   valsweep anyarg                          every accessor on any component values (no precondition), sanitizers decide
 #include "drv_common.h"
+#include <ace_time/common/DateStrings.h>
 using namespace ace_time;
 
 Print VerifSerial;
@@ -185,7 +187,65 @@ static int components() {
   return 0;
 }
 
+
+// anyarg: every public accessor of the value types on ANY component values, error values included -- C09 allows no
+// precondition ("for any argument values"); the sanitizers decide. Nothing is compared here.
+static int anyarg() {
+  static const int years[] = {-32768, -1, 0, 1872, 1873, 1900, 2000, 2100, 2127, 2128, 9999, 32767};
+  LocalDate ref = LocalDate::forComponents(2000, 1, 1);
+  for (int y : years) for (int m = 0; m < 256; m++) {
+    sink += LocalDate::daysInMonth((int16_t) y, (uint8_t) m); sink += LocalDate::isLeapYear((int16_t) y);
+    nops += 2;
+    for (int d = 0; d < 256; d += (m <= 13 || m >= 250 ? 1 : 17)) {
+      LocalDate ld = LocalDate::forComponents((int16_t) y, (uint8_t) m, (uint8_t) d);
+      sink += ld.dayOfWeek(); sink += ld.toEpochDays(); sink += ld.toEpochSeconds(); sink += ld.toUnixDays(); sink += ld.toUnixSeconds();
+      sink += ld.compareTo(ref) + (ld == ref) + ld.year() + ld.yearTiny() + ld.month() + ld.day() + ld.isError();
+      Print p; ld.printTo(p); sink += p.buf.size();
+      LocalDate t = LocalDate::forTinyComponents((int8_t) (y & 0xff), (uint8_t) m, (uint8_t) d);
+      sink += t.dayOfWeek(); sink += t.toEpochDays();
+      LocalDate inc = ld; local_date_mutation::incrementOneDay(inc); LocalDate dec = ld; local_date_mutation::decrementOneDay(dec);
+      sink += inc.day() + dec.day();
+      nops += 12;
+      if (d % 16 == 0 || d <= 32) {
+        LocalDateTime ldt = LocalDateTime::forComponents((int16_t) y, (uint8_t) m, (uint8_t) d, (uint8_t) (d % 30), (uint8_t) (m % 70), (uint8_t) (d % 70));
+        sink += ldt.dayOfWeek(); sink += ldt.toEpochDays(); sink += ldt.toEpochSeconds(); sink += ldt.toUnixDays(); sink += ldt.toUnixSeconds();
+        Print q; ldt.printTo(q); sink += q.buf.size();
+        OffsetDateTime odt = OffsetDateTime::forComponents((int16_t) y, (uint8_t) m, (uint8_t) d, (uint8_t) (d % 30), (uint8_t) (m % 70), (uint8_t) (d % 70), TimeOffset::forMinutes((int16_t) ((m * 37) % 2000 - 1000)));
+        sink += odt.dayOfWeek(); sink += odt.toEpochDays(); sink += odt.toEpochSeconds(); sink += odt.toUnixSeconds();
+        sink += odt.convertToTimeOffset(TimeOffset::forHours(5)).isError();
+        Print r; odt.printTo(r); sink += r.buf.size();
+        ZonedDateTime zdt = ZonedDateTime::forComponents((int16_t) y, (uint8_t) m, (uint8_t) d, (uint8_t) (d % 30), (uint8_t) (m % 70), (uint8_t) (d % 70), TimeZone::forUtc());
+        sink += zdt.dayOfWeek(); sink += zdt.toEpochSeconds(); sink += zdt.convertToTimeZone(TimeZone::forTimeOffset(TimeOffset::forHours(-8))).isError();
+        Print u; zdt.printTo(u); sink += u.buf.size();
+        nops += 18;
+      }
+    }
+  }
+  for (int h = 0; h < 256; h++) for (int mi = 0; mi < 256; mi++) for (int sc = 0; sc < 256; sc += (h <= 25 ? 1 : 51)) {
+    LocalTime lt = LocalTime::forComponents((uint8_t) h, (uint8_t) mi, (uint8_t) sc);
+    sink += lt.toSeconds() + lt.isError() + lt.compareTo(LocalTime::forComponents(1, 2, 3));
+    nops += 3;
+    if (sc % 64 == 0) { Print p; lt.printTo(p); sink += p.buf.size(); }
+  }
+  ace_time::DateStrings ds;
+  for (int v = 0; v < 256; v++) {
+    sink += strlen(ds.dayOfWeekLongString((uint8_t) v)); sink += strlen(ds.dayOfWeekShortString((uint8_t) v));
+    sink += strlen(ds.monthLongString((uint8_t) v)); sink += strlen(ds.monthShortString((uint8_t) v));
+    for (int w = 0; w < 256; w++) {
+      TimeOffset o = TimeOffset::forHourMinute((int8_t) v, (int8_t) w); sink += o.toMinutes() + o.isError();
+      Print p; o.printTo(p); sink += p.buf.size();
+      TimePeriod tp((uint8_t) v, (uint8_t) w, (uint8_t) (v ^ w), (w & 1) ? 1 : -1); sink += tp.toSeconds(); Print q; tp.printTo(q); sink += q.buf.size();
+      nops += 4;
+    }
+    sink += TimeOffset::forHours((int8_t) v).toMinutes();
+    nops += 5;
+  }
+  printf("{\"done\":1,\"nops\":%ld,\"nfail\":%ld}\n", nops, nfail);
+  return 0;
+}
+
 int main(int argc, char** argv) {
+  if (argc >= 2 && !strcmp(argv[1], "anyarg")) return anyarg();
   if (argc >= 5 && !strcmp(argv[1], "instants")) return instants(atol(argv[2]), atol(argv[3]), atol(argv[4]));
   if (argc >= 2 && !strcmp(argv[1], "components")) return components();
   return 2;
